@@ -30,7 +30,8 @@ SHAPES = {
                                    "sub/unskip.dat": F("US"), "sub/skip.x": F("SX")}, "doc": {"a": 1}}},
     "dst-only": {"dst": {"files": {"keep.txt": F("D")}, "doc": {"d": 1}}},
     "identical": {"src": {"files": {"f.txt": F("same")}, "doc": {"a": 1}}, "dst": {"files": {"f.txt": F("same")}, "doc": {"a": 1}}},
-    "src-new-files": {"src": {"files": {"new.txt": F("N"), "sd/x.txt": F("NX"), "skip.log": F("SL"), "noskip.log": F("NS")}, "doc": None},
+    "src-new-files": {"src": {"files": {"new.txt": F("N"), "sd/x.txt": F("NX"), "skip.log": F("SL"), "noskip.log": F("NS"),
+                                        "skip.d/inner.txt": F("SI")}, "doc": None},
                       "dst": {"files": {"old.txt": F("O")}, "doc": None}},
     "dst-extra": {"src": {"files": {"f.txt": F("same")}, "doc": {"a": 1}},
                   "dst": {"files": {"f.txt": F("same"), "keep.txt": F("D"), "kd/k.txt": F("DK")}, "doc": {"a": 1, "donly": [1, 2]}}},
@@ -197,7 +198,10 @@ def call(root, ids, opts, entry):
             sel = opts["selection"]
             if sel is not None:
                 idxs = sel["indices"]
-                kw["selection"] = [ids[i] for i in idxs] if sel["form"] == "ids" else [S.open_job({"j": i}) for i in idxs]
+                if sel["form"] == "id-prefixes":
+                    kw["selection"] = [ids[i][:12] for i in idxs]  # not ids: nothing is selected by them
+                else:
+                    kw["selection"] = [ids[i] for i in idxs] if sel["form"] == "ids" else [S.open_job({"j": i}) for i in idxs]
             if entry == "Project.sync":
                 D.sync(S, **kw)
             else:
@@ -304,7 +308,7 @@ def evaluate_case(case):
             if job_level:
                 scope = [opts["job_index"]]
             elif opts["selection"] is not None:
-                scope = list(opts["selection"]["indices"])
+                scope = [] if opts["selection"]["form"] == "id-prefixes" else list(opts["selection"]["indices"])
             else:
                 scope = [i for i, n in enumerate(shapes) if "src" in SHAPES[n]]
             scope = [i for i in scope if "src" in SHAPES[shapes[i]]]
@@ -638,7 +642,7 @@ def base_cases(tier):
     pairs = list(itertools.permutations(MULTI[:6] if tier == "quick" else MULTI, 2))
     for (a, b) in pairs:
         for sel in (None, {"form": "ids", "indices": [0]}, {"form": "ids", "indices": [1]}, {"form": "jobs", "indices": [0]},
-                    {"form": "ids", "indices": [0, 1]}, {"form": "ids", "indices": []}):
+                    {"form": "ids", "indices": [0, 1]}, {"form": "ids", "indices": []}, {"form": "id-prefixes", "indices": [0]}):
             for st, ds in (("always", "update"), ("none", "default"), ("update", "bykey-fn")):
                 for order in ("sorted", "reversed"):
                     yield ((a, b), "none", base_opts(strategy=st, doc_sync=ds, recursive=True, selection=sel, order=order),
@@ -827,12 +831,15 @@ def thread_cases(tier):
                 k += 1
                 if tier != "quick" or k % 3 == 1:
                     yield case, 2
+    n3 = 0
     for tri in itertools.permutations(pool[:4], 3):
         if tier == "quick" and tri[0] != pool[0]:
             continue
         for par in (2, True):
+            n3 += 1
+            # three tasks: every schedule with one preemption; two preemptions for every sixth case in thorough
             yield (tri, "none", base_opts(strategy="update", doc_sync="bykey-fn", recursive=True, exclude="list", parallel=par),
-                   "sync_projects"), (1 if tier == "quick" else 2)
+                   "sync_projects"), (2 if tier != "quick" and n3 % 6 == 1 else 1)
 
 
 def replay_case(payload, prop):
